@@ -314,6 +314,8 @@ func main() {
 		}
 		frontier := []st{{init, nil}}
 		var states, trans int64 = 1, 0
+		var probes int64
+		probe := []op{{Kind: "Get", Key: "a"}, {Kind: "Get", Key: "b"}, {Kind: "Get", Key: "c"}, {Kind: "Add", Key: "a", Val: "y", W: 1}, {Kind: "Get", Key: "a"}, {Kind: "GetOldest"}, {Kind: "RemoveOldest"}}
 		maxDepth := 0
 		for len(frontier) > 0 && !c.OutOfBudget() {
 			cur := frontier[0]
@@ -342,6 +344,22 @@ func main() {
 					continue
 				}
 				k := m.key()
+				if seen[k] {
+					// This state was reached before along another path and is not expanded again.  That merge is sound
+					// only if the cache has no state beyond the ordered entry list (see dedup_argument); to notice a
+					// change that adds hidden history-dependent state, every such duplicate arrival is probed on the
+					// same real object with a short fixed continuation (a hit on every key, a re-add, the oldest).
+					probePath := append(append([]op{}, cur.path...), o)
+					for _, po := range probe {
+						probes++
+						probePath = append(probePath, po)
+						if msg := apply(real, m, po, &evicted); msg != "" {
+							c.Violation(cf.impl+"/"+po.Kind, map[string]interface{}{"impl": cf.impl, "maxWeight": cf.mw, "maxSize": cf.mn, "ops": probePath},
+								"%s(maxWeight=%d,maxSize=%d) after %v: %s", cf.impl, cf.mw, cf.mn, probePath, msg)
+							break
+						}
+					}
+				}
 				if !seen[k] {
 					seen[k] = true
 					states++
@@ -357,7 +375,8 @@ func main() {
 			}
 		}
 		c.Count("states", states)
-		c.Count("transitions", trans)
+		c.Count("transitions", trans+probes)
+		c.Count("duplicate_arrival_probe_steps", probes)
 		c.Count("traces_validated_against_impl", trans)
 		c.Count("configs_completed", 1)
 		c.Distinct("max_depth_values", fmt.Sprint(maxDepth))
